@@ -7,7 +7,7 @@
 //! scheduler below at every lock / atomic operation which thread goes on. The scheduler enumerates
 //! depth first, with replay, every choice sequence with at most `bound` preemptions.
 //!
-//! usage: lsched run <quick|thorough>            -> JSON report on stdout
+//! usage: lsched run <quick|thorough> [scenario] -> JSON report on stdout
 //!        lsched replay <scenario> <c0,c1,...>   -> runs one schedule, prints the violation if any
 use std::collections::{BTreeMap, HashMap, HashSet};
 use std::sync::atomic::{AtomicUsize, Ordering};
@@ -35,6 +35,7 @@ struct Shared {
     pos: usize,
     started: bool,
     executions: u64,
+    decisions: u64,
     max_depth: usize,
     /// when set: follow exactly these choices (indices into `options`), default policy afterwards
     forced: Option<Vec<usize>>,
@@ -133,7 +134,8 @@ impl Scheduler for BoundedDfs {
             if sh.stack[pos].options != options {
                 // finish this execution on the default policy (stopping inside an execution would unwind tasks that hold locks) and stop afterwards
                 if sh.diverged.is_none() {
-                    sh.diverged = Some(format!("divergence while replaying step {}: enabled {:?}, recorded {:?}", pos, options, sh.stack[pos].options));
+                    let prefix: Vec<usize> = sh.stack[..pos].iter().map(|f| f.chosen).collect();
+                    sh.diverged = Some(format!("divergence while replaying step {}: enabled {:?}, recorded {:?}; choices so far {:?}", pos, options, sh.stack[pos].options, prefix));
                 }
                 sh.stack.truncate(pos);
                 let pre = sh.stack.last().map(|f| f.preemptions_before + if f.current_enabled && f.chosen > 0 { 1 } else { 0 }).unwrap_or(0);
@@ -145,6 +147,7 @@ impl Scheduler for BoundedDfs {
         }
         let c = sh.stack[pos].chosen;
         sh.pos += 1;
+        sh.decisions += 1;
         if sh.pos > sh.max_depth {
             sh.max_depth = sh.pos;
         }
@@ -154,6 +157,39 @@ impl Scheduler for BoundedDfs {
     fn next_u64(&mut self) -> u64 {
         0
     }
+}
+
+// ---------------------------------------------------------------------------------------------
+// minimal tracing subscriber (determinism probe only): records shuttle's trace events as text
+// ---------------------------------------------------------------------------------------------
+
+struct Rec {
+    lines: Arc<Mutex<Vec<String>>>,
+}
+
+struct V(String);
+impl tracing::field::Visit for V {
+    fn record_debug(&mut self, field: &tracing::field::Field, value: &dyn std::fmt::Debug) {
+        self.0.push_str(&format!(" {}={:?}", field.name(), value));
+    }
+}
+
+impl tracing::Subscriber for Rec {
+    fn enabled(&self, _: &tracing::Metadata<'_>) -> bool {
+        true
+    }
+    fn new_span(&self, _: &tracing::span::Attributes<'_>) -> tracing::span::Id {
+        tracing::span::Id::from_u64(1)
+    }
+    fn record(&self, _: &tracing::span::Id, _: &tracing::span::Record<'_>) {}
+    fn record_follows_from(&self, _: &tracing::span::Id, _: &tracing::span::Id) {}
+    fn event(&self, event: &tracing::Event<'_>) {
+        let mut v = V(String::new());
+        event.record(&mut v);
+        self.lines.lock().unwrap().push(format!("{}:{}{}", event.metadata().target(), event.metadata().line().unwrap_or(0), v.0));
+    }
+    fn enter(&self, _: &tracing::span::Id) {}
+    fn exit(&self, _: &tracing::span::Id) {}
 }
 
 // ---------------------------------------------------------------------------------------------
@@ -187,8 +223,9 @@ const BATCH_C: [i64; 4] = [6, 7, 8, 9];
 
 fn batch(ids: &[i64]) -> HashMap<String, InputColumn> {
     let mut m = HashMap::new();
+    // one column per table: the iteration order of a partition's column map (std HashMap, seeded per instance) must not
+    // decide the order of lock acquisitions, or two runs of the same schedule would differ
     m.insert("id".to_string(), InputColumn::Int(ids.to_vec()));
-    m.insert("s".to_string(), InputColumn::Str(ids.iter().map(|i| format!("v{}", i)).collect()));
     m
 }
 
@@ -208,6 +245,9 @@ struct Report {
 /// What one snapshot shows: row ranges and, for resident columns, the ids themselves.
 fn check_snapshot(snap: &[Arc<Partition>], acked_before: usize, acked_after: usize) -> Result<String, (String, String)> {
     let mut parts: Vec<(usize, usize, Option<Vec<i64>>)> = vec![];
+    // (the snapshot lists partitions in the iteration order of a HashMap: visit them in row order)
+    let mut snap: Vec<&Arc<Partition>> = snap.iter().collect();
+    snap.sort_by_key(|p| p.range().start);
     for p in snap {
         let r = p.range();
         let mut ids = None;
@@ -338,12 +378,8 @@ fn body(sc: Scenario, report: Arc<Report>, sched: BoundedDfs) {
                     let mut b = ColumnBuffer::default();
                     b.push_ints(all.iter().copied(), None);
                     let idcol = b.finalize("id");
-                    let mut b = ColumnBuffer::default();
-                    let strs: Vec<String> = all.iter().map(|i| format!("v{}", i)).collect();
-                    b.push_strings(strs.iter().map(|s| s.as_str()), None);
-                    let scol = b.finalize("s");
                     let id = table.next_partition_id();
-                    table.compact(id, range.start, vec![idcol, scol], &parts);
+                    table.compact(id, range.start, vec![idcol], &parts);
                     table.verif_make_evictable(id);
                 }
             }
@@ -404,7 +440,7 @@ fn body(sc: Scenario, report: Arc<Report>, sched: BoundedDfs) {
     }
 }
 
-fn explore(sc: Scenario, bound: usize, cap: u64, forced: Option<Vec<usize>>) -> (Arc<Report>, u64, usize, bool, Option<String>, Option<String>) {
+fn explore(sc: Scenario, bound: usize, cap: u64, forced: Option<Vec<usize>>) -> (Arc<Report>, (u64, u64), usize, bool, Option<String>, Option<String>) {
     let report = Arc::new(Report { violations: Mutex::new(vec![]), outcomes: Mutex::new(BTreeMap::new()), snapshots_checked: AtomicUsize::new(0) });
     let sh = Arc::new(Mutex::new(Shared { cap, forced, ..Default::default() }));
     let sched = BoundedDfs { bound, sh: sh.clone() };
@@ -428,7 +464,7 @@ fn explore(sc: Scenario, bound: usize, cap: u64, forced: Option<Vec<usize>>) -> 
         }
     });
     let sh = sh.lock().unwrap();
-    (report, sh.executions, sh.max_depth, sh.capped, sh.diverged.clone(), crash)
+    (report, (sh.executions, sh.decisions), sh.max_depth, sh.capped, sh.diverged.clone(), crash)
 }
 
 fn main() {
@@ -453,13 +489,60 @@ fn main() {
         println!("{}", serde_json::json!({"ok": true}));
         return;
     }
+    if args.len() >= 3 && args[1] == "determinism" {
+        // the same choice sequence twice in one process: the enabled sets must be identical step by step
+        let sc = SCENARIOS.iter().find(|s| s.name == args[2]).copied().expect("scenario name");
+        let choices: Vec<usize> = args.get(3).map(|a| a.split(',').filter(|x| !x.is_empty()).map(|x| x.parse().unwrap()).collect()).unwrap_or_default();
+        let mut traces = vec![];
+        let mut events: Vec<Vec<String>> = vec![];
+        for _ in 0..3 {
+            let report = Arc::new(Report { violations: Mutex::new(vec![]), outcomes: Mutex::new(BTreeMap::new()), snapshots_checked: AtomicUsize::new(0) });
+            let sh = Arc::new(Mutex::new(Shared { cap: 1, forced: Some(choices.clone()), ..Default::default() }));
+            let sched = BoundedDfs { bound: usize::MAX, sh: sh.clone() };
+            let mut config = shuttle::Config::new();
+            config.failure_persistence = shuttle::FailurePersistence::None;
+            config.silence_warnings = true;
+            let (r2, s2) = (report.clone(), sched.clone());
+            let lines = Arc::new(Mutex::new(vec![]));
+            let rec = Rec { lines: lines.clone() };
+            tracing::subscriber::with_default(rec, || {
+                shuttle::Runner::new(sched, config).run(move || body(sc, r2.clone(), s2.clone()));
+            });
+            let t: Vec<(Vec<usize>, usize)> = sh.lock().unwrap().stack.iter().map(|f| (f.options.clone(), f.chosen)).collect();
+            traces.push(t);
+            events.push(lines.lock().unwrap().clone());
+        }
+        for i in 1..traces.len() {
+            let (a, b) = (&traces[0], &traces[i]);
+            let first = (0..a.len().max(b.len())).find(|k| a.get(*k) != b.get(*k));
+            println!("run 0 vs run {}: lengths {} / {}, first difference at step {:?}: {:?} vs {:?}", i, a.len(), b.len(), first, first.and_then(|k| a.get(k)), first.and_then(|k| b.get(k)));
+            if first.is_some() {
+                let (ea, eb) = (&events[0], &events[i]);
+                let norm = |s: &String| s.split("0x").next().unwrap_or("").to_string();
+                let fe = (0..ea.len().max(eb.len())).find(|k| ea.get(*k).map(norm) != eb.get(*k).map(norm));
+                if let Some(k) = fe {
+                    for j in k.saturating_sub(6)..(k + 4) {
+                        println!("   [{}] {:?}\n        {:?}", j, ea.get(j), eb.get(j));
+                    }
+                }
+            }
+        }
+        return;
+    }
     let tier = args.get(2).map(|s| s.as_str()).unwrap_or("quick");
-    let (bound, cap) = if tier == "quick" { (2usize, 200_000u64) } else { (3usize, 3_000_000u64) };
+    let (bound, cap) = if tier == "quick" { (2usize, 400_000u64) } else { (3usize, 4_000_000u64) };
+    let only = args.get(3).cloned();
     let mut out = vec![];
     for sc in SCENARIOS {
-        let bound = if sc.two_queries || (sc.ingest && sc.compaction) { bound.saturating_sub(0) } else { bound };
+        if let Some(o) = &only {
+            if o != sc.name {
+                continue;
+            }
+        }
+        // four threads: one preemption less
+        let bound = if sc.two_queries { bound - 1 } else { bound };
         let t0 = std::time::Instant::now();
-        let (report, executions, max_depth, capped, diverged, crash) = explore(sc, bound, cap, None);
+        let (report, (executions, decisions), max_depth, capped, diverged, crash) = explore(sc, bound, cap, None);
         let violations: Vec<_> = report.violations.lock().unwrap().iter().map(|v| serde_json::json!({"sig": v.sig, "what": v.what, "scenario": sc.name, "choices": v.choices})).collect();
         let mut violations = violations;
         if let Some(c) = &crash {
@@ -470,6 +553,7 @@ fn main() {
             "scenario": sc.name,
             "preemption_bound": bound,
             "executions": executions,
+            "decisions": decisions,
             "max_decisions_in_one_execution": max_depth,
             "snapshots_checked": report.snapshots_checked.load(Ordering::SeqCst),
             "outcomes": *report.outcomes.lock().unwrap(),
